@@ -17,7 +17,7 @@ def pattern (A : Bcsr α) : Csr Nat := ⟨A.rows, A.cols, A.rowPtr, A.colInd, Ar
 def permute [Zero α] (A : Bcsr α) (p q : Array Nat) : Option (Bcsr α) :=
   if p.size = 0 ∧ q.size = 0 then some A
   else if p.size ≠ A.rows ∨ q.size ≠ A.cols then none
-  else if A.isArrayless then some A          -- intended; the real code dereferences a null row_ptr (c02-edge:D1)
+  else if A.isArrayless then some A          -- `if (used_elements() == 0) return;` (D9, fixed in /repo by 59f054b00)
   else match A.pattern.permute p q with
     | some T =>
       some ⟨A.bh, A.bw, A.rows, A.cols, T.rowPtr, T.colInd,
